@@ -7,6 +7,7 @@ import (
 	"errors"
 	"io"
 	"net"
+	"strconv"
 	"time"
 )
 
@@ -267,3 +268,5 @@ func vHasPrefix(b []byte, p string) bool {
 	}
 	return ok
 }
+
+func parseFloat64(s string) (float64, error) { return strconv.ParseFloat(s, 64) }
